@@ -13,17 +13,37 @@
        a round of such operations has ONE outcome whatever the order the mutex grants - this is what the
        correspondence check compares the real provider with, round by round, under real concurrency.
    (d) sequential correctness of whole operations and of the search walk is C01's / C07's subject.
-   Partial: that a lock-free SEARCH running beside one writer returns an answer consistent with some
-   linearization (it reads the maps and counters the writer publishes atomically) is not proved; the
-   correspondence check bounds concurrent publishes from below (untouched subscriptions) and above. *)
+   (e) the lock-free SEARCH beside the writers (model/LFSearch.v: one reader that takes no lock, one atomic
+       access per step - a children.Load per level, then the subs of the node it reached - interleaved with
+       the writers' atomic accesses in ANY order; a search for a topic is a set of such walks, one per matching
+       filter path, "+" and "#" being ordinary keys): a subscription that is in place and that no unfinished
+       UNSUBSCRIBE targets is found; a subscriber that is not registered at the path and that no unfinished
+       SUBSCRIBE registers there is not found - whatever else is created or pruned around the path meanwhile,
+       including the node the reader stands on.  An operation on the very pair (path, subscriber) that overlaps
+       the search may be seen or not: both are linearizations.
+   Not modelled: retained messages in the protocol machine (n_ret is never set there; the retained walk is
+   C07's subject, its hand-over to the clean-up is exercised by the gated schedule cleanup-vs-retain);
+   sync.Map.Range is taken as one read of the set, which is faithful for keys that are present (absent) during
+   the whole call - exactly the keys the two theorems speak about. *)
 From Coq Require Import List NArith ZArith Bool Arith Permutation.
 Import ListNotations.
-From VMQ Require Import gen.Extracted model.Trie model.Match model.LFProto proofs.LFProofs.
+From VMQ Require Import gen.Extracted model.Trie model.Match model.LFProto proofs.LFProofs model.LFSearch proofs.LFSearchProofs model.LFShape.
 
 (* (a) *)
 Theorem C09_writers_locked : lf_writers_locked = true.
 Proof. vm_compute. reflexivity. Qed.
 Print Assumptions C09_writers_locked.
+
+(* (a') the functions of node.go make the atomic accesses, in the order and under the conditions, that the
+   protocol machine and the reader were written against *)
+From Coq Require String.
+Import String.StringSyntax Ascii.AsciiSyntax.
+Open Scope string_scope.
+Eval vm_compute in (shape_diff lf_shape).      (* for the log: which function differs, and what was read *)
+Close Scope string_scope.
+Theorem C09_protocol_shape : shape_ok lf_shape = true.
+Proof. vm_compute. reflexivity. Qed.
+Print Assumptions C09_protocol_shape.
 
 (* (b) for every initial heap, every set of operations and EVERY schedule *)
 Theorem C09_mutual_exclusion : forall h ops sched,
@@ -55,10 +75,63 @@ Theorem C09_distinct_keys_commute : forall ops ops' m,
 Proof. intros ops ops' m HP Hf Hnd. apply (perm_commute ops ops' HP Hf Hnd m m). intros k. reflexivity. Qed.
 Print Assumptions C09_distinct_keys_commute.
 
+(* (e) c1 is ANY configuration the writers can reach from the empty index; es is ANY interleaving of
+   further writer steps (W i) and steps of the searching reader (R) *)
+Theorem C09_search_finds_acknowledged_subscription : forall ops sched1 es p s res,
+  let c1 := run (start lf_writers_locked heap0 ops) sched1 in
+  In s (receivers c1 p) ->                   (* s is registered at p ... *)
+  NoOp true c1 p s ->                        (* ... and no UNSUBSCRIBE(p, s) is unfinished or still to start *)
+  snd (run2 (c1, RWalk 0 p) es) = RDone res -> In s res.
+Proof.
+  intros ops sched1 es p s res c1 Hin HN Hres. subst c1. rewrite C09_writers_locked in *.
+  rewrite receivers_subs_at in Hin.
+  pose proof (GInv_run sched1 _ (GInv_start ops)) as HG.
+  destruct (search_sees_present p s es _ (RWalk 0 p) HG HN Hin) as (_ & _ & _ & Hr).
+  - exists []. split; reflexivity.
+  - rewrite Hres in Hr. exact Hr.
+Qed.
+Print Assumptions C09_search_finds_acknowledged_subscription.
+
+Theorem C09_search_misses_unsubscribed : forall ops sched1 es p s res,
+  let c1 := run (start lf_writers_locked heap0 ops) sched1 in
+  ~ In s (receivers c1 p) ->                 (* s is not registered at p ... *)
+  NoOp false c1 p s ->                       (* ... and no SUBSCRIBE(p, s) is unfinished or still to start *)
+  snd (run2 (c1, RWalk 0 p) es) = RDone res -> ~ In s res.
+Proof.
+  intros ops sched1 es p s res c1 Hout HN Hres. subst c1. rewrite C09_writers_locked in *.
+  rewrite receivers_subs_at in Hout.
+  pose proof (GInv_run sched1 _ (GInv_start ops)) as HG.
+  destruct (search_misses_absent p s es _ (RWalk 0 p) HG HN Hout) as (_ & _ & _ & Hr).
+  - split; [apply (GInv_T _ HG)|]. left. exists []. split; reflexivity.
+  - rewrite Hres in Hr. exact Hr.
+Qed.
+Print Assumptions C09_search_misses_unsubscribed.
+
+(* the invariant behind (e) holds in every reachable configuration: the index is a tree, every node that is
+   not reachable from the root is empty, and the counters bound the sets from above *)
+Theorem C09_index_invariant : forall ops sched,
+  let h := hp (run (start lf_writers_locked heap0 ops) sched) in
+  T0 h /\ T1 h /\ DI h.
+Proof. intros ops sched h. subst h. rewrite C09_writers_locked. apply GInv_T. apply GInv_run. apply GInv_start. Qed.
+Print Assumptions C09_index_invariant.
+
 Example C09_nonvacuous :
   let ops := [OpIns [112; 113] 1; OpRem [112; 113] 2; OpIns [112; 114] 3]%N in
   let h := apply_op heap0 (OpIns [112; 113] 2)%N in
   (* an arbitrary interleaving of the three threads *)
   let c := run (start true h ops) (concat (repeat [2; 0; 1; 1; 0; 2]%nat 40)) in
   all_done c = true /\ receivers c [112; 113]%N = [1]%N /\ receivers c [112; 114]%N = [3]%N.
+Proof. vm_compute. repeat split. Qed.
+
+(* non-vacuity of (e): subscriber 1 is in place at 112/113; while the reader walks, subscriber 2 is inserted and
+   removed at 112/114 (creating and pruning the sibling branch) and subscriber 3 comes and goes at 112/113 itself;
+   the hypotheses of both theorems hold for (112/113, 1) resp. (112/113, 9) and the reader finishes *)
+Example C09_search_nonvacuous :
+  let ops := [OpIns [112; 113] 1; OpIns [112; 114] 2; OpRem [112; 114] 2; OpIns [112; 113] 3; OpRem [112; 113] 3]%N in
+  let c1 := run (start true heap0 ops) (repeat 0%nat 12) in
+  let es := (repeat (W 1) 10 ++ [R] ++ repeat (W 3) 12 ++ [R; R] ++ repeat (W 2) 20 ++ repeat (W 4) 20)%list in
+  receivers c1 [112; 113]%N = [1]%N /\
+  map snd (thr c1) = [PDone; PStart; PStart; PStart; PStart] /\
+  snd (run2 (c1, RWalk 0 [112; 113]%N) es) = RDone [1; 3]%N /\
+  all_done (fst (run2 (c1, RWalk 0 [112; 113]%N) es)) = true.
 Proof. vm_compute. repeat split. Qed.
